@@ -1,4 +1,5 @@
 import SLE.Lemmas.UnifyTerm
+import SLE.Lemmas.MergePacked
 /-!
 # C14 — unification ends with one equality-free type per variable and honours equalities
 
@@ -71,5 +72,16 @@ example : NoPacked 2 (fun v => if v = 0 then [.mapping 1 1, .word none .numeric]
   by_cases h : v = 0
   · simp [h] at he; rcases he with rfl | rfl <;> rfl
   · simp [h] at he; subst he; rfl
+
+
+/-- Why unification need not terminate (finding D12), for every width and every non-numeric
+usage: a packed encoding whose only span is the class itself, met by a word of that width, hands
+the word back as new evidence for the same class and is itself unchanged — in either order. -/
+theorem C14_packed_self_reference_reemits (p w : Nat) (u : WordUse) (hu : MergePacked.nonNumeric u = true) (n : Nat) :
+    foldClass p [.packed [⟨p, 0, w⟩] false, .word (some w) u] n =
+      .ok (.packed [⟨p, 0, w⟩] false, n, [], [(p, .word (some w) u)], []) ∧
+    foldClass p [.word (some w) u, .packed [⟨p, 0, w⟩] false] n =
+      .ok (.packed [⟨p, 0, w⟩] false, n, [], [(p, .word (some w) u)], []) :=
+  MergePacked.d12_foldClass p w u hu n
 
 end SLE.C14
